@@ -476,6 +476,179 @@ theorem C13_taper1_tiles (p1 p2 : V3 ℝ) (n : Nat) (r minT : ℝ) (maxT : Optio
       simp only at h
       exact taper1Loop_spec p1 p2 _ _ eps mt _ n n 0 false p1 _ segs (by omega) (by omega) h
 
+
+theorem ok_shape' {E α : Type} (c : Prop) [Decidable c] (rec : Except E (List α)) (x : α) (e1 : E)
+    (segs : List α)
+    (h : (if c then consOk x rec else Except.error e1) = Except.ok segs) :
+    c ∧ ∃ r, rec = .ok r ∧ segs = x :: r := by
+  split at h
+  · rename_i hc
+    cases hr : rec with
+    | ok r => rw [hr] at h; simp only [consOk] at h; injection h with h; exact ⟨hc, r, rfl, h.symm⟩
+    | error e => rw [hr] at h; simp only [consOk] at h; cases h
+  · cases h
+
+/-- every segment the main loop of `taper1` lets through has a length within `[min_t − eps, mt + eps]`: the loop
+checks each one before it is appended -/
+theorem taper1Loop_bounds (p1 p2 lv minc : V3 ℝ) (eps minT mt : ℝ) (n : Nat) :
+    ∀ (fuel i : Nat) (steady : Bool) (p inc1 : V3 ℝ) (segs : List (V3 ℝ × V3 ℝ)), i + fuel = n → 0 < fuel →
+      taper1Loop p1 p2 lv minc eps minT mt n fuel i steady p inc1 = .ok segs →
+      ∀ s ∈ segs, minT - eps ≤ V3.norm (s.2 - s.1) ∧ V3.norm (s.2 - s.1) ≤ mt + eps := by
+  intro fuel
+  induction fuel with
+  | zero => intro i steady p inc1 segs _ h; omega
+  | succ f ih =>
+    intro i steady p inc1 segs hi _ hok
+    unfold taper1Loop at hok
+    simp only at hok
+    by_cases hlast : i = n - 1
+    · rw [if_pos hlast] at hok
+      split at hok
+      · rename_i hc
+        injection hok with hok; subst hok
+        intro s hs
+        simp only [List.mem_singleton] at hs
+        subst hs
+        exact hc
+      · cases hok
+    · rw [if_neg hlast] at hok
+      have hf : 0 < f := by omega
+      obtain ⟨hc, r, hr, hsegs⟩ := ok_shape' _ _ _ _ _ hok
+      subst hsegs
+      intro s hs
+      rcases List.mem_cons.mp hs with rfl | hs
+      · exact hc
+      · exact ih (i + 1) _ _ _ r (by omega) hf hr s hs
+
+
+theorem taper1Minl_eps (l : ℝ) (n : Nat) (minT : ℝ) (maxT : Option ℝ) (minl eps : ℝ)
+    (hm : taper1Minl l n minT maxT = .ok (minl, eps)) :
+    eps = (if l / (((2 ^ n - 1 : Nat) : ℝ)) < minT then minT else l / (((2 ^ n - 1 : Nat) : ℝ))) / ((10 : Nat) : ℝ) := by
+  unfold taper1Minl at hm
+  simp only at hm
+  cases maxT with
+  | none =>
+    simp only at hm
+    injection hm with hm
+    exact (Prod.mk.inj hm).2.symm
+  | some mx =>
+    simp only at hm
+    by_cases hc : mx / ((2 ^ (n - 1) : Nat) : ℝ) < (if l / (((2 ^ n - 1 : Nat) : ℝ)) < minT then minT else l / (((2 ^ n - 1 : Nat) : ℝ)))
+    · rw [if_pos hc] at hm
+      cases hs : taper1Search l mx ((if l / (((2 ^ n - 1 : Nat) : ℝ)) < minT then minT else l / (((2 ^ n - 1 : Nat) : ℝ))) / ((10 : Nat) : ℝ)) n (n - 1) with
+      | error e => rw [hs] at hm; cases hm
+      | ok nminl =>
+        rw [hs] at hm
+        simp only at hm
+        by_cases hg : ¬ mx / ((2 ^ (n - 1) : Nat) : ℝ) < nminl +
+            (if l / (((2 ^ n - 1 : Nat) : ℝ)) < minT then minT else l / (((2 ^ n - 1 : Nat) : ℝ))) / ((10 : Nat) : ℝ)
+        · rw [if_pos hg] at hm; cases hm
+        · rw [if_neg hg] at hm
+          injection hm with hm
+          exact (Prod.mk.inj hm).2.symm
+    · rw [if_neg hc] at hm
+      injection hm with hm
+      exact (Prod.mk.inj hm).2.symm
+
+/-- `mt = max_t or l`: the upper limit the loop checks against -/
+def taperHi (isZero : ℝ → Bool) (maxT : Option ℝ) (l : ℝ) : ℝ :=
+  match maxT with
+  | some mx => if isZero mx then l else mx
+  | none => l
+
+/-- **taper limits** (tapered end first): every segment of an accepted one-sided taper is at least
+`max (2.5 r, min_t) − eps` and at most `(max_t or the wire length) + eps` long, where `eps` is a tenth of the first
+segment aimed at (`max (l / (2ⁿ − 1), max (2.5 r, min_t))`) -/
+theorem C13_taper1_bounds (p1 p2 : V3 ℝ) (n : Nat) (r minT : ℝ) (maxT : Option ℝ) (c25 : ℝ)
+    (isZero : ℝ → Bool) (segs : List (V3 ℝ × V3 ℝ))
+    (h : taper1 p1 p2 n r minT maxT false c25 isZero = .ok segs) :
+    let l := V3.norm (p2 - p1)
+    let lo := maxK (c25 * r) minT
+    let hi := taperHi isZero maxT l
+    ∃ eps : ℝ, (eps = l / (((2 ^ n - 1 : Nat) : ℝ)) / ((10 : Nat) : ℝ) ∨ eps = lo / ((10 : Nat) : ℝ)) ∧
+      ∀ s ∈ segs, lo - eps ≤ V3.norm (s.2 - s.1) ∧ V3.norm (s.2 - s.1) ≤ hi + eps := by
+  intro l lo hi
+  unfold taper1 at h
+  simp only [Bool.false_eq_true, if_false] at h
+  unfold taper1Fwd at h
+  simp only at h
+  cases hpre : taperPre (V3.norm (p2 - p1)) n r minT maxT c25 with
+  | error e => rw [hpre] at h; cases h
+  | ok mt =>
+    rw [hpre] at h
+    have hn : 1 < n := by
+      unfold taperPre at hpre
+      simp only at hpre
+      split at hpre
+      · cases hpre
+      · omega
+    have hmt : mt = lo := by
+      unfold taperPre at hpre
+      simp only at hpre
+      split at hpre
+      · cases hpre
+      · split at hpre
+        · cases hpre
+        · cases maxT with
+          | none => simp only at hpre; injection hpre with hpre; exact hpre.symm
+          | some mx =>
+            simp only at hpre
+            split at hpre
+            · cases hpre
+            · split at hpre
+              · cases hpre
+              · injection hpre with hpre; exact hpre.symm
+    simp only at h
+    cases hm : taper1Minl (V3.norm (p2 - p1)) n mt maxT with
+    | error e => rw [hm] at h; cases h
+    | ok v =>
+      rw [hm] at h
+      obtain ⟨minl, eps⟩ := v
+      simp only at h
+      have heps : eps = l / (((2 ^ n - 1 : Nat) : ℝ)) / ((10 : Nat) : ℝ) ∨ eps = lo / ((10 : Nat) : ℝ) := by
+        have := taper1Minl_eps _ n mt maxT minl eps hm
+        rw [this]
+        split
+        · right; rw [hmt]
+        · left; rfl
+      refine ⟨eps, heps, ?_⟩
+      have := taper1Loop_bounds p1 p2 _ _ eps mt _ n n 0 false p1 _ segs (by omega) (by omega) h
+      rw [hmt] at this
+      intro s hs
+      have := this s hs
+      cases maxT <;> exact this
+
+
+/-- the same limits when the *second* end is tapered (`end = 1`): the segments are those of the taper run from `p2` to
+`p1`, reversed -/
+theorem C13_taper1_bounds_end2 (p1 p2 : V3 ℝ) (n : Nat) (r minT : ℝ) (maxT : Option ℝ) (c25 : ℝ)
+    (isZero : ℝ → Bool) (segs : List (V3 ℝ × V3 ℝ))
+    (h : taper1 p1 p2 n r minT maxT true c25 isZero = .ok segs) :
+    let l := V3.norm (p1 - p2)
+    let lo := maxK (c25 * r) minT
+    let hi := taperHi isZero maxT l
+    ∃ eps : ℝ, (eps = l / (((2 ^ n - 1 : Nat) : ℝ)) / ((10 : Nat) : ℝ) ∨ eps = lo / ((10 : Nat) : ℝ)) ∧
+      ∀ s ∈ segs, lo - eps ≤ V3.norm (s.1 - s.2) ∧ V3.norm (s.1 - s.2) ≤ hi + eps := by
+  intro l lo hi
+  unfold taper1 at h
+  simp only [if_true] at h
+  cases h0 : taper1Fwd p2 p1 n r minT maxT c25 isZero with
+  | error e => rw [h0] at h; cases h
+  | ok segs0 =>
+    rw [h0] at h
+    simp only at h
+    injection h with h
+    have hf : taper1 p2 p1 n r minT maxT false c25 isZero = .ok segs0 := by
+      unfold taper1
+      simp only [Bool.false_eq_true, if_false]
+      exact h0
+    obtain ⟨eps, he, hb⟩ := C13_taper1_bounds p2 p1 n r minT maxT c25 isZero segs0 hf
+    refine ⟨eps, he, ?_⟩
+    intro s hs
+    rw [← h] at hs
+    obtain ⟨t, ht, rfl⟩ := List.mem_map.mp hs
+    exact hb t (List.mem_reverse.mp ht)
+
 /-- **mirroring**: tapering the other end is tapering from `p2` to `p1`, reversed, with the end
 points of every segment exchanged -/
 theorem C13_taper_mirror (p1 p2 : V3 ℝ) (n : Nat) (r minT : ℝ) (maxT : Option ℝ) (c25 : ℝ)
